@@ -111,7 +111,7 @@ pub fn run(args: &Args) -> Option<i32> {
     let mut mon = Monitor::new(args, &rule(prop));
 
     // Workload (bounded by counts): shards x worlds x steps.
-    let n_shards: u64 = args.scale(256, 1536);
+    let n_shards: u64 = args.scale(256, 6144);
     let (worlds_q, worlds_t): (u64, u64) = match prop {
         Prop::C07 => (200, 200),
         Prop::C08 => (160, 160),
